@@ -74,7 +74,8 @@ def run_num():
 def run_scale():
     fb = mods()['fb']
     with installed(fb):
-        fb.factorial.__self__.exact = True if hasattr(fb.factorial, '__self__') else None
+        if hasattr(fb, 'factorial') and hasattr(fb.factorial, '__self__'):
+            fb.factorial.__self__.exact = True        # dependency contract: exact k!
         for n in (1, 6, 7, 13, 25, 30):
             m = int(fb._num_taylor_coefficients(n))
             coefs = SymArr([cplx('c%d' % k) for k in range(m)])
